@@ -1,1 +1,76 @@
-fn main(){ let m = ironcalc_base::UserModel::new_empty("x","en","UTC","en").unwrap(); println!("{:?}", m.verif_history_depths()); println!("{}", ironcalc_base::Function::into_iter().count()); }
+mod behreplay;
+mod gen;
+mod histrec;
+mod ops;
+mod project;
+mod world;
+
+use serde_json::{json, Value};
+use std::collections::HashMap;
+
+fn args_map() -> (String, HashMap<String, String>) {
+    let mut it = std::env::args().skip(1);
+    let cmd = it.next().unwrap_or_default();
+    let mut m = HashMap::new();
+    let rest: Vec<String> = it.collect();
+    let mut i = 0;
+    while i < rest.len() {
+        let k = rest[i].trim_start_matches("--").to_string();
+        if i + 1 < rest.len() && !rest[i + 1].starts_with("--") {
+            m.insert(k, rest[i + 1].clone());
+            i += 2;
+        } else {
+            m.insert(k, "true".to_string());
+            i += 1;
+        }
+    }
+    (cmd, m)
+}
+
+fn geti(m: &HashMap<String, String>, k: &str, d: i64) -> i64 {
+    m.get(k).and_then(|v| v.parse().ok()).unwrap_or(d)
+}
+fn gets(m: &HashMap<String, String>, k: &str, d: &str) -> String {
+    m.get(k).cloned().unwrap_or(d.to_string())
+}
+fn getb(m: &HashMap<String, String>, k: &str) -> bool {
+    m.contains_key(k)
+}
+
+fn main() {
+    ops::quiet_panics();
+    let (cmd, m) = args_map();
+    let out: Result<Value, String> = match cmd.as_str() {
+        "histrec" => histrec::record(&histrec::RecCfg {
+            seed: geti(&m, "seed", 1) as u64,
+            runs: geti(&m, "runs", 10) as usize,
+            steps: geti(&m, "steps", 100) as usize,
+            out_dir: gets(&m, "out", "/tmp/icverif"),
+            with_nav: getb(&m, "nav"),
+            with_lang: getb(&m, "lang"),
+            edge: getb(&m, "edge"),
+            p_invalid: m.get("pinvalid").and_then(|v| v.parse().ok()).unwrap_or(0.12),
+            nav_heavy: getb(&m, "navheavy"),
+            calm: getb(&m, "calm"),
+        }),
+        "behreplay" => behreplay::replay(&gets(&m, "family", ""), &gets(&m, "in", ""), &gets(&m, "out", "/tmp/icverif"), geti(&m, "limit", 0) as usize),
+        "runprog" => histrec::run_program(&gets(&m, "in", ""), &gets(&m, "out", "/tmp/icverif")),
+        "histbeh" => histrec::replay_behaviours(
+            &gets(&m, "in", ""),
+            &gets(&m, "out", "/tmp/icverif"),
+            geti(&m, "k", 2) as usize,
+            geti(&m, "seed", 1) as u64,
+            geti(&m, "limit", 0) as usize,
+        ),
+        _ => Err(format!("unknown command '{cmd}'")),
+    };
+    match out {
+        Ok(v) => {
+            println!("{}", json!({"ok": true, "result": v}));
+        }
+        Err(e) => {
+            eprintln!("icverif error: {e}");
+            std::process::exit(2);
+        }
+    }
+}
